@@ -436,7 +436,8 @@ func (w *World) CheckAllZero() {
 		w.vio("C03", "after everything was released the partition counts %d allocations and %d placeholders", s.PartAllocs, s.PartPhAllocs)
 	}
 	if s.PartReservations != 0 {
-		w.vio("C09", "after everything was removed the partition counts %d reservations", s.PartReservations)
+		// not part of the property (the counter must not be zero while a reservation exists; it may stay high): label only
+		w.Tag("diag-partition-reservation-counter-left-high")
 	}
 	if w.Checks["C05"] || w.Checks["*"] {
 		w.checkTrackedUsage(s)
